@@ -112,6 +112,11 @@ POSITIONS = {
     "dup_section": "vextra: %(h)s\npipeline:\n  - !VPool\nvextra: {b: 1}\n",
     "logging_section": "logging: {version: 1, x: %(h)s}\npipeline:\n  - !VPool\n",
     "shipped_tag_arg": "pipeline:\n  - !LinearController {rate: %(h)s}\n  - !VPool\n",
+    # under a keyword that the tag's factory (one with an explicit signature) does not take
+    "unknown_keyword_of_strict_factory": "pipeline:\n  - !LinearController {rate: 2, no_such_option: %(h)s}\n  - !VPool\n",
+    "unknown_keyword_of_strict_factory_nested": "pipeline:\n  - !Standardiser {minimum: 0, no_such_option: [%(h)s]}\n  - !VPool\n",
+    "unknown_keyword_of_strict_helper": "pipeline:\n  - !VPool\nvextra: {thing: !VSnapStrict {size: 3, no_such_option: %(h)s}}\n",
+    "unknown_keyword_of_strict_eager_helper": "pipeline:\n  - !VPool {a: !VSnapStrictNow {size: 3, no_such_option: [%(h)s]}}\n",
     # the refused document also has a logging section naming a factory: nothing of a refused document may be applied
     "beside_logging_factory": "logging: {version: 1, disable_existing_loggers: false, handlers: {h: {'()': vcanary_cold.handler}}, loggers: {verif.c18: {handlers: [h]}}}\npipeline:\n  - !VPool\nvextra: {a: %(h)s}\n",
     # in a plain nested container that is still being filled in when an eagerly evaluated tag is constructed later on
@@ -291,6 +296,8 @@ def run_product(spec, result):
             twin = "pipeline:\n  - !VPool\n"  # the stream without the later documents / without the extra key
         elif case["position"] == "root_tag_on_sections":
             twin = case["text"].replace("--- " + hostile.split(" ")[0], "---")
+        elif case["position"].startswith("unknown_keyword_of_strict"):
+            twin = case["text"].replace(", no_such_option: [%s]" % hostile, "").replace(", no_such_option: %s" % hostile, "")
         else:
             twin = case["text"].replace(hostile, special.get(case["position"], BENIGN))
         # the benign twin must load: "everything is rejected" cannot pass.  For every fourth case it is loaded first, from the
